@@ -25,7 +25,13 @@ type c11Case struct {
 	Src2     string `json:"src2,omitempty"` // restored afterwards by the same Restorer
 	Resolver bool   `json:"resolver"`
 	Template string `json:"template,omitempty"`
+	// ImportEdit (with Resolver): the decorated tree is edited so that the import-managed restore has
+	// to change the import declarations: rebuild | alias | addref (see c12ImportEdit) | unused (every
+	// other declaration removed, so every import is dropped)
+	ImportEdit string `json:"import_edit,omitempty"`
 }
+
+var c11ImportEdits = []string{"rebuild", "alias", "addref", "unused"}
 
 var astNodeIface = reflect.TypeOf((*ast.Node)(nil)).Elem()
 
@@ -182,7 +188,7 @@ func init() {
 		Level: "model_checking",
 		Rule: "every corpus template (quick: plus every <=1 gap insertion; thorough: <=2) x {no resolver, goast resolver}: Decorator.Map after DecorateFile and Restorer.Map after RestoreFile " +
 			"(with import management when a resolver is used, so identifiers expand to selectors) are checked against ast.Inspect / reflection walks: total, typed, in-tree, mutually inverse (collapsed selectors excepted), " +
-			"commuting with every parent/child edge, no nil keys; plus every ordered pair of import-bearing files restored by one Restorer with import management, both files' maps examined after the second restore; and DecorateNode on a 3-file *ast.Package with and without a resolver; state = (canonical text, resolver); non-trivial = file with a collapsed selector or an inserted decoration",
+			"commuting with every parent/child edge, no nil keys; plus every ordered pair of import-bearing files restored by one Restorer with import management, both files' maps examined after the second restore; every import-bearing file restored after an edit that forces the restorer to change the import declarations (imports removed so that they are recreated, renamed through Alias, a new reference added, all references removed); and DecorateNode on a 3-file *ast.Package with and without a resolver; state = (canonical text, resolver); non-trivial = file with a collapsed selector or an inserted decoration",
 		Assumptions: []string{"syntactic children are the Node-typed fields found by reflection on go/ast and dst types"},
 		Units: func(tier string) []string {
 			u := gapUnits(gen.Templates(), 1)
@@ -206,6 +212,14 @@ func init() {
 				// a package: this file and then every other import-bearing file restored by ONE Restorer
 				// (import management on); the maps must still describe the first file afterwards
 				a := importTemplates()[unit-n]
+				// restores that have to change the import declarations (the maps must describe the tree
+				// the caller passed in, as the restore left it)
+				for _, e := range c11ImportEdits {
+					cs := c11Case{Src: a.Src, Resolver: true, ImportEdit: e}
+					ctx.State("import-edit|"+a.Name+"|"+e, true)
+					ctx.R.Transitions++
+					ctx.Eval(cs, c11Check(cs))
+				}
 				for _, b := range importTemplates() {
 					cs := c11Case{Src: a.Src, Src2: b.Src, Resolver: true}
 					ctx.State("one-restorer|"+a.Name+"|"+b.Name, true)
@@ -288,7 +302,7 @@ func c11Check(cs c11Case) core.Outcome {
 		return c11Package(cs)
 	}
 	fail := func(key, desc string) core.Outcome {
-		return core.Outcome{Key: key, Desc: fmt.Sprintf("%s\nresolver=%v\ninput:\n%s", desc, cs.Resolver, cs.Src)}
+		return core.Outcome{Key: key, Desc: fmt.Sprintf("%s\nresolver=%v import-edit=%q\ninput:\n%s", desc, cs.Resolver, cs.ImportEdit, cs.Src)}
 	}
 	fset := token.NewFileSet()
 	af, err := parser.ParseFile(fset, "a.go", cs.Src, parser.ParseComments)
@@ -296,7 +310,7 @@ func c11Check(cs c11Case) core.Outcome {
 		return core.Outcome{OK: true}
 	}
 	var dec *decorator.Decorator
-	if cs.Resolver && cs.Src2 != "" {
+	if cs.Resolver && (cs.Src2 != "" || cs.ImportEdit != "") {
 		dec = decorator.NewDecoratorWithImports(fset, "example.com/local", goast.WithResolver(simple.New(stdNames)))
 	} else if cs.Resolver {
 		dec = decorator.NewDecoratorWithImports(fset, "example.com/local", goast.New())
@@ -313,8 +327,22 @@ func c11Check(cs c11Case) core.Outcome {
 	if k, d := checkMaps("decorator", af, df, dec.Dst.Nodes, dec.Ast.Nodes); k != "" {
 		return fail(k, "Decorator.Map: "+d)
 	}
+	var alias map[string]string
+	switch cs.ImportEdit {
+	case "":
+	case "unused":
+		var keep []dst.Decl
+		for _, dcl := range df.Decls {
+			if gd, ok := dcl.(*dst.GenDecl); ok && gd.Tok == token.IMPORT {
+				keep = append(keep, dcl)
+			}
+		}
+		df.Decls = keep
+	default:
+		alias = c12ImportEdit(df, cs.ImportEdit)
+	}
 	var res *decorator.Restorer
-	if cs.Resolver && cs.Src2 != "" {
+	if cs.Resolver && (cs.Src2 != "" || cs.ImportEdit != "") {
 		res = decorator.NewRestorerWithImports("example.com/local", simple.New(stdNames))
 	} else if cs.Resolver {
 		res = decorator.NewRestorerWithImports("example.com/local", guess.New())
@@ -322,7 +350,15 @@ func c11Check(cs c11Case) core.Outcome {
 		res = decorator.NewRestorer()
 	}
 	var rf *ast.File
-	if p := guard(func() { rf, err = res.RestoreFile(df) }); p != "" {
+	if p := guard(func() {
+		if alias != nil {
+			fr := res.FileRestorer()
+			fr.Alias = alias
+			rf, err = fr.RestoreFile(df)
+		} else {
+			rf, err = res.RestoreFile(df)
+		}
+	}); p != "" {
 		return fail("restore-panic", p)
 	}
 	if err != nil {
